@@ -58,28 +58,26 @@ def check_split_entry(ctx):
            uses == ['run'], f'uses of the stack: {uses}')
     rets = [n for n in own_nodes(f.node) if isinstance(n, ast.Return)]
     ok, detail = False, f'`{src(rets[0].value) if rets else None}`'
-    if len(rets) == 1 and isinstance(rets[0].value, ast.ListComp) and len(rets[0].value.generators) == 1:
-        lc = rets[0].value
-        g = lc.generators[0]
-        it = g.iter
+    built = list_builder(f, rets[0].value) if len(rets) == 1 else None
+    if built is not None:
+        it, target, e, ifs = built
         if isinstance(it, ast.Name):
             from ..astutil import local_defs
             ds = local_defs(f.node).get(it.id, [])
             if len(ds) == 1 and isinstance(ds[0], ast.AST):
                 it = ds[0]
         it_ok = isinstance(it, ast.Call) and is_attr(it.func, 'run', var) and [src(a) for a in it.args] == f.params[:2] and not it.keywords
-        e = lc.elt
-        sv = g.target.id if isinstance(g.target, ast.Name) else None
+        sv = target.id if isinstance(target, ast.Name) else None
         el_ok = isinstance(e, ast.Call) and isinstance(e.func, ast.Attribute) and e.func.attr == 'strip' and not e.args \
-            and isinstance(e.func.value, ast.Call) and is_name(e.func.value.func, 'str') and is_name(e.func.value.args[0], sv)
-        ifs_ok = all(src(c) in (f'str({sv}).strip()', sv) for c in g.ifs)
+            and isinstance(e.func.value, ast.Call) and is_name(e.func.value.func, 'str') and len(e.func.value.args) == 1 and is_name(e.func.value.args[0], sv)
+        ifs_ok = all(src(c) in (f'str({sv}).strip()', sv) for c in ifs)
         ok = it_ok and el_ok and ifs_ok
         if it_ok and not el_ok:
             detail = f'piece expression `{src(e)}` is not str({sv}).strip(): pieces are no longer the stripped statement texts'
         if not it_ok:
             detail = f'iterates `{src(it)}` instead of stack.run({", ".join(f.params[:2])})'
         if not ifs_ok:
-            detail = f'pieces are filtered by `{[src(c) for c in g.ifs]}`'
+            detail = f'pieces are filtered by `{[src(c) for c in ifs]}`'
     ctx.ob('R4.1', 'split:result', loc, 'split returns [str(stmt).strip() for stmt in stack.run(sql, encoding)]', ok, detail)
     # parsestream forwards the same two arguments to the same run (checked in R2.7 for C02; re-checked here briefly)
     p = repo.func('sqlparse.parsestream')
@@ -89,6 +87,33 @@ def check_split_entry(ctx):
     ctx.ob('R4.1', 'parsestream:forwards', f'{p.mod.relpath}:{p.node.lineno}', 'parsestream returns stack.run(stream, encoding)', ok, '')
     pc, pv = RK.stack_usage(ctx, p)
     ctx.ob('R4.1', 'same-stack-class', loc, 'split and parsestream construct the same FilterStack class', pc is not None, '')
+
+
+def list_builder(f, value):
+    """(iterable, target, element expression, filter conditions) of the list a function returns: a list comprehension, or
+    `acc = []` / `for T in IT: [if C:] acc.append(E)` / `return acc`"""
+    if isinstance(value, ast.ListComp) and len(value.generators) == 1:
+        g = value.generators[0]
+        return g.iter, g.target, value.elt, list(g.ifs)
+    if isinstance(value, ast.Call) and is_name(value.func, 'list') and len(value.args) == 1 and isinstance(value.args[0], ast.GeneratorExp) \
+            and len(value.args[0].generators) == 1:
+        g = value.args[0].generators[0]
+        return g.iter, g.target, value.args[0].elt, list(g.ifs)
+    if isinstance(value, ast.Name):
+        acc = value.id
+        inits = [s for s in f.node.body if isinstance(s, ast.Assign) and len(s.targets) == 1 and is_name(s.targets[0], acc)]
+        loops = [s for s in f.node.body if isinstance(s, ast.For) and any(isinstance(n, ast.Name) and n.id == acc for n in ast.walk(s))]
+        others = [n for n in own_nodes(f.node) if isinstance(n, ast.Name) and n.id == acc]
+        if len(inits) == 1 and isinstance(inits[0].value, ast.List) and not inits[0].value.elts and len(loops) == 1 and not loops[0].orelse:
+            lp = loops[0]
+            body, ifs = lp.body, []
+            while len(body) == 1 and isinstance(body[0], ast.If) and not body[0].orelse:
+                ifs.append(body[0].test)
+                body = body[0].body
+            if len(body) == 1 and isinstance(body[0], ast.Expr) and isinstance(body[0].value, ast.Call) and is_attr(body[0].value.func, 'append', acc) \
+                    and len(body[0].value.args) == 1 and len(others) == 3:
+                return lp.iter, lp.target, body[0].value.args[0], ifs
+    return None
 
 
 def check_consume_after_append(ctx):
@@ -145,25 +170,34 @@ def check_ws_agreement(ctx):
 
 
 def check_strip_semicolon(ctx):
+    from ..astutil import alias_map, canon_text
     f = ctx.repo.func('sqlparse.filters.others.StripTrailingSemicolonFilter.process')
     g = Guards(f.node)
+    amap = alias_map(f.node)
     loc = f'{f.mod.relpath}:{f.node.lineno}'
-    pops = [n for n in own_nodes(f.node) if isinstance(n, ast.Call) and isinstance(n.func, ast.Attribute)
-            and n.func.attr in ('pop', 'remove', 'clear') and isinstance(n.func.value, ast.Attribute) and n.func.value.attr == 'tokens']
-    ctx.need(pops, 'StripTrailingSemicolonFilter.process no longer pops tokens')
     sp = f.params[1]
+    pops = [n for n in own_nodes(f.node) if isinstance(n, ast.Call) and isinstance(n.func, ast.Attribute)
+            and n.func.attr in ('pop', 'remove', 'clear') and canon_text(src(n.func.value), amap).endswith('.tokens')]
+    dels = [n for n in own_nodes(f.node) if isinstance(n, ast.Delete)]
+    ctx.need(pops or dels, 'StripTrailingSemicolonFilter.process no longer pops tokens')
+    want = (f'{sp}.tokens[-1].is_whitespace', f"{sp}.tokens[-1].value == ';'")
     for pnode in pops:
-        facts = g.facts(pnode)
-        ok = pnode.func.attr == 'pop' and (not pnode.args or src(pnode.args[0]) == '-1')
+        facts = [(canon_text(fa[0], amap), fa[1]) if fa[0] != '|' else ('|', [[(canon_text(e, amap), p_) for e, p_ in alt] for alt in fa[1]])
+                 for fa in g.facts(pnode)]
+        ok = pnode.func.attr == 'pop' and (not pnode.args or src(pnode.args[0]) == '-1') and canon_text(src(pnode.func.value), amap) == f'{sp}.tokens'
         alt_ok = False
         for fa in facts:
             if fa[0] == '|':
                 alts = fa[1]
-                alt_ok = all(len(a) == 1 and a[0][1] and a[0][0] in (f'{sp}.tokens[-1].is_whitespace', f"{sp}.tokens[-1].value == ';'")
-                             for a in alts) and len(alts) <= 2
+                alt_ok = alt_ok or (all(len(a) == 1 and a[0][1] and a[0][0] in want for a in alts) and len(alts) <= 2)
+            elif fa[1] and fa[0] in want:
+                alt_ok = True
         ctx.ob('R4.5', f'pop:{src(pnode)}', f'{f.mod.relpath}:{pnode.lineno}',
                'the filter pops the last token only while it is whitespace or ";"', ok and alt_ok,
                f'`{src(pnode)}` under guards {[x for x in facts if x[0] != "|"]}: other tokens can be removed from the statement')
+    for d in dels:
+        ctx.ob('R4.5', f'del:{src(d)}', f'{f.mod.relpath}:{d.lineno}', 'the filter removes tokens only by popping the last one under the whitespace/";" guard', False,
+               f'`{src(d)}`')
 
 
 def check_ws_rules_only_ws(ctx, rid):
